@@ -49,11 +49,11 @@ func (e *Engine) FromNative(st *State, rv reflect.Value, t types.Type) Value {
 			}
 		}
 		addr := rv.Pointer()
-		if id, ok := e.nativeMemo[addr]; ok && id < len(st.heap) {
+		if id, ok := st.natives[addr]; ok {
 			return PtrV{Obj: id}
 		}
 		id := e.alloc(st, nil)
-		e.nativeMemo[addr] = id
+		st.natives[addr] = id
 		st.heap[id].Val = e.FromNative(st, rv.Elem(), u.Elem())
 		return PtrV{Obj: id}
 	case *types.Slice:
